@@ -13,3 +13,6 @@ import JominiModel.Props.C04
 #print axioms Jomini.BinDe.C04_eq_spec_tape
 #print axioms Jomini.BinDe.C04_paths_end_to_end_partial
 #print axioms Jomini.BinDe.C04_end_to_end_halves
+#print axioms Jomini.BinDe.C04_eq_spec_seq
+#print axioms Jomini.BinDe.C04_tape_eq_ondemand
+#print axioms Jomini.BinDe.C04_paths_end_to_end
